@@ -159,7 +159,7 @@ func (p *peer) handleStateTransition(i int, t stateTransition) {
 			localID := p.id
 			dominant := localID > remoteID ||
 				(localID == remoteID) && (p.config.LocalAS > p.config.RemoteAS)
-			if dominant && i == out {
+			if (dominant && i == out) || (!dominant && i == in) {
 				verifPoint("collision.select", p)
 				// attempt to disable other FSM
 				select {
